@@ -85,6 +85,14 @@ func genClassify(h *H) {
 				// ClassifyStream and the classify-and-decrypt entry point on the whole armored and binary message
 				h.Run(Case{Op: "cls_stream", A: map[string]string{"armored": hx([]byte(txt)), "binary": hx(p.wire), "full": full, "brand": hx([]byte(brand)),
 					"keys": keysOf(p), "signers": signersOf(p), "msg": hx(p.msg), "name": p.name}})
+				// ... and on legally re-flowed forms of the whole armored text: quoted as in an e-mail reply ("> " before
+				// every line, so that '>' is the first byte the classifier sees), indented, and randomly re-flowed
+				quoted := "> " + strings.Replace(strings.Replace(txt, " ", "\n", 3), "\n", "\n> ", -1)
+				for _, alt := range []string{quoted, ">" + txt, "\n\t  " + txt, "> > " + txt, reflow(h.rng, txt, 1)} {
+					h.tag("cls-stream-reflowed")
+					h.Run(Case{Op: "cls_stream", A: map[string]string{"armored": hx([]byte(alt)), "binary": hx(p.wire), "full": full, "brand": hx([]byte(brand)),
+						"keys": keysOf(p), "signers": signersOf(p), "msg": hx(p.msg), "name": p.name}})
+				}
 				if bi == 0 && !big {
 					// the longest header sentences the frame grammar allows: a 128-character brand and the
 					// words separated by quoting runs, so that the sentence approaches 512 characters
